@@ -59,7 +59,7 @@ DEFAULTS = {
     "thorough": {"budget_s": 900, "chunk": 20, "per_run_wall": 300,
                  "minimise_s": 300},
 }
-REQUIRED_PROBES = ["crash_before_open", "crash_in_write", "crash_before_rename",
+REQUIRED_PROBES = ["save_interrupted_by_exception", "crash_before_open", "crash_in_write", "crash_before_rename",
                    "crash_after_rename", "torn_write", "crash_in_atexit_save",
                    "corrupt_truncated", "corrupt_wrong_type", "corrupt_missing_key",
                    "restored_nonempty_cache", "extreme_dates_cached"]
@@ -88,6 +88,7 @@ class SimDisk:
         self.save_no = -1
         self.in_save = False
         self.crash_at = None       # (save_no, step, torn_fraction or None)
+        self.fault_at = None       # (save_no, step, "EIO"|"ENOSPC"): exception, no crash
         self.dead = False
         self.log = []
         self.unreadable = False
@@ -116,6 +117,12 @@ class SimDisk:
         self.step += 1
         if self.in_save:
             self.kinds_per_save[-1].append(kind)
+        fa = self.fault_at
+        if fa is not None and self.in_save and fa[0] == self.save_no and fa[1] == k:
+            self.fault_at = None           # single shot
+            self.log.append(f"{fa[2]} at {kind}#{k}")
+            import errno as _errno
+            raise OSError(getattr(_errno, fa[2]), f"injected {fa[2]} at {kind}#{k}")
         ca = self.crash_at
         if ca is not None and self.in_save and ca[0] == self.save_no and ca[1] == k:
             if ca[2] is not None and torn_ok:
@@ -542,6 +549,11 @@ class Exec:
                 if k < n and kinds[k] in ("flush", "flush_at_close"):
                     for tv in (0, 1, 2):        # torn: nothing / all-but-one / half
                         plan.append((k, tv))
+                # the same step failing with an exception instead of a crash
+                if k < n and kinds[k] != "write":
+                    plan.append((k, "ENOSPC" if kinds[k] != "open_w" else "EIO"))
+                elif k < n and k % 7 == 3:
+                    plan.append((k, "EIO"))      # python-level writes: sampled
         elif self.mode[0] == s:
             plan = [(self.mode[1], self.mode[2])]
         else:
@@ -557,7 +569,10 @@ class Exec:
             bdisk = SimDisk(self.disk.cache_path)
             bdisk.unreadable = old[3]
             bdisk.bufsize = self.w["bufsize"]
-            bdisk.crash_at = (0, k, tv)
+            if isinstance(tv, str):
+                bdisk.fault_at = (0, k, tv)
+            else:
+                bdisk.crash_at = (0, k, tv)
             bat = _Atexit()
             self.disk, self.atexit = bdisk, bat
             self.V, self.nontrivial, self.save_docs = [], False, []
@@ -572,9 +587,19 @@ class Exec:
                 try:
                     fs.save_cache(self.cache)
                     bdisk.end_save()
+                    if isinstance(tv, str):
+                        self.V.append(_viol(
+                            "C15/ioerror/swallowed",
+                            f"save_cache returned normally although {tv} was "
+                            f"injected at step {k}"))
                 except SimCrash:
                     crashed = True
                     self.after_crash()
+                except OSError as e:
+                    crashed = True
+                    if not isinstance(tv, str):
+                        raise
+                    self.after_crash(ioerror=True)
                 if not crashed and k == n:
                     self.after_crash()        # died right after the save
             self.branches += 1
@@ -584,7 +609,9 @@ class Exec:
                     "flush_at_close": "crash_before_flush",
                     "close": "crash_before_close", "rename": "crash_before_rename",
                     "after_rename": "crash_after_rename"}[kind]
-            if tv is not None:
+            if isinstance(tv, str):
+                name = "io_error_" + tv
+            elif tv is not None:
                 name = "torn_write"
             self.faults[name] = self.faults.get(name, 0) + 1
             if via_atexit:
@@ -753,9 +780,12 @@ class Exec:
             except SimCrash:
                 raise AssertionError("harness: crash escaped a branch")
 
-    def after_crash(self):
-        """The interpreter died inside a save. Restart and check old-or-new."""
+    def after_crash(self, ioerror=False):
+        """The interpreter died inside a save (or, ioerror=True, the save was
+        interrupted by an exception). Restart and check old-or-new."""
         d = self.disk
+        if ioerror:
+            self.probe("save_interrupted_by_exception")
         d.in_save = False
         d.crash_at = None
         d.dead = False
